@@ -17,7 +17,8 @@ pub fn short_revert_string_optimization(source_unit: SourceUnit) -> HashSet<Loc>
         None => return optimization_locations,
     };
 
-    if !(solidity_version.1 >= 8 && solidity_version.2 >= 4) {
+    //(major, minor, patch) tuples compare lexicographically
+    if solidity_version < (0, 8, 4) {
         let target_nodes = ast::extract_target_from_node(Target::FunctionCall, source_unit.into());
 
         for node in target_nodes {
